@@ -315,6 +315,12 @@ class C12(Prop):
         rest = dict((k, v) for k, v in s.items() if k != "format")
         # ONE checker object serves every instance of the case in turn (a checker is a long-lived object)
         fc, sc = build_checker(d, case["checker"], allow_late=True)
+        if case["checker"].get("kind") == "subset":
+            # FormatChecker(formats=<any iterable of names>) knows exactly those names
+            wanted = set(n for n in case["checker"].get("subset", []) if n in impl.jsonschema.FormatChecker.checkers)
+            if set(fc.checkers) != wanted:
+                res.fail(("flat", "formats-subset-not-honoured"), "asked for %r, the checker knows %r" % (sorted(wanted), sorted(fc.checkers)))
+                return res
         vlate = None
         if sc is not None and not sc.registered:
             # the validator is handed a checker that knows nothing yet; the functions are registered afterwards
